@@ -89,3 +89,14 @@ Definition solve_cusparse (dt y0 : Q) (cs : list outcome) : result * Q :=
 (* Odeint: the observer is called once per accepted step and throws beyond mxsteps *)
 Definition solve_odeint (mxsteps nsteps : nat) : result :=
   if Nat.ltb mxsteps nsteps then Failure else Success.
+
+(** the Odeint object over a history of calls: Init and Reset store the step budget, every Solve is judged against
+    the budget in force (the last one stored) *)
+Inductive ocall := OInit (mxsteps : nat) | OReset (mxsteps : nat) | OSolve (nsteps : nat).
+Fixpoint odeint_history (budget : nat) (cs : list ocall) : list result :=
+  match cs with
+  | [] => []
+  | OInit b :: r => odeint_history b r
+  | OReset b :: r => odeint_history b r
+  | OSolve n :: r => solve_odeint budget n :: odeint_history budget r
+  end.
